@@ -55,18 +55,34 @@ func (e *Enc) checkPost(f *frame, rs retSite) {
 			env.vars["result"] = rs.vals[i]
 		}
 	}
-	env.blk = nil
+	// locals of the function are visible in post-conditions with their values at the return
+	env.blk, env.paramsFirst = rs.blk, true
 	e.ctr["ret"]++
-	retTag := fmt.Sprintf("ret%d", e.ctr["ret"])
+	retTag := e.w.returnSite(f.fn, rs.pos)
 	e.curReach = rs.reach
 	for k, c := range e.fc.Ensures {
 		goal := e.safeEvalGoal(c, env)
-		e.oblige("post", fmt.Sprintf("ensures%d/%s", k+1, retTag), rs.pos, goal, c.Props, c.Text)
+		lb := fmt.Sprintf("ensures%d", k+1)
+		if c.Label != "" {
+			lb = c.Label
+		}
+		e.oblige("post", lb+"/"+retTag, rs.pos, goal, c.Props, c.Text)
+	}
+	if e.fc.EstablishesGlobalInvs {
+		genv := &SpecEnv{vars: map[string]Val{}, st: rs.st}
+		for k, c := range e.w.contracts.GlobalInvs {
+			goal := e.safeEvalGoal(c, genv)
+			e.oblige("post", fmt.Sprintf("globalinv%d/%s", k+1, retTag), rs.pos, goal, e.fc.Props, c.Text)
+		}
 	}
 	for k, c := range e.fc.Claims {
 		goal := e.safeEvalGoal(c, env)
 		n0 := len(e.lines)
-		e.oblige("post", fmt.Sprintf("claims%d/%s", k+1, retTag), rs.pos, goal, c.Props, c.Text)
+		lb := fmt.Sprintf("claims%d", k+1)
+		if c.Label != "" {
+			lb = c.Label
+		}
+		e.oblige("post", lb+"/"+retTag, rs.pos, goal, c.Props, c.Text)
 		// a claim may be a known finding: it is never assumed afterwards
 		e.lines = e.lines[:n0]
 	}
@@ -83,7 +99,10 @@ func (e *Enc) safeEvalGoal(c *Clause, env *SpecEnv) string {
 	g := e.safeEvalBool(c, env)
 	e.pol = savePol
 	if len(e.goalSkolems) > n0 {
+		saveC := e.curGoalSkolems
+		e.curGoalSkolems = e.goalSkolems[n0:]
 		e.instantiateFacts(e.goalSkolems[n0:])
+		e.curGoalSkolems = saveC
 	}
 	return g
 }
@@ -383,7 +402,12 @@ func (e *Enc) checkBackEdge(f *frame, li *loopInfo, from *ssa.BasicBlock, st *St
 			continue
 		}
 		func() {
-			defer func() { recover() }()
+			mode := e.saveMode()
+			defer func() {
+				if r := recover(); r != nil {
+					e.restoreMode(mode)
+				}
+			}()
 			v := e.evalSpec(c.Expr, envBody)
 			for i, t := range flatten(v) {
 				probes = append(probes, Probe{fmt.Sprintf("%s.%d", c.Text, i), t})
@@ -439,7 +463,7 @@ func (e *Enc) resolveLocal(f *frame, b *ssa.BasicBlock, name string, atHead bool
 			for i := len(instrs) - 1; i >= 0; i-- {
 				if dr, ok := instrs[i].(*ssa.DebugRef); ok {
 					if id, ok := dr.Expr.(*ast.Ident); ok && id.Name == name {
-						if _, isVar := dr.Object().(*types.Var); !isVar {
+						if tv, isVar := dr.Object().(*types.Var); !isVar || tv.IsField() {
 							continue
 						}
 						v, ok := f.vals[dr.X]
@@ -493,7 +517,7 @@ func (e *Enc) resolveLocal(f *frame, b *ssa.BasicBlock, name string, atHead bool
 		for _, ins := range bb.Instrs {
 			if dr, ok := ins.(*ssa.DebugRef); ok {
 				if id, ok := dr.Expr.(*ast.Ident); ok && id.Name == name {
-					if v, isVar := dr.Object().(*types.Var); isVar {
+					if v, isVar := dr.Object().(*types.Var); isVar && !v.IsField() {
 						nv := e.freshVal(shapeOf(v.Type()), "undef_"+sanitize(name))
 						return nv, true
 					}
